@@ -64,6 +64,10 @@ PROPS = {
             "rule": "one case per TLC state of Wavelet.tla (orthogonal wavelet, shape, axes subset, level): advertised and actual coefficient shapes compared exactly with the shape calculus, and the three identities measured for real and complex input; non-trivial = at least one decomposition level",
             "assumptions": ["quick: haar, db2, db4, sym3, coif1; thorough: haar, db2-8, sym2-8, coif1-5", "identities (irrational filter taps) are numeric: bound 1e-9 relative, validated through AccuracyTrace.tla"],
             "trusted": TLC_BASE + ["PyWavelets filter lengths (dec_len) as constants of the model"]},
+    "C16": {"level": "model_checking", "engines": [("sense", "sense", "run")],
+            "rule": "one case per TLC state of Sense.tla (coils, coil_batch_size, Cartesian/non-Cartesian, weights) x image shapes: dense operator vs explicit encoding, adjoint, batch invariance; plus SenseRecon / TotalVariationRecon / L1WaveletRecon runs against independent references; non-trivial = more than one coil",
+            "assumptions": ["image shapes (4,4), (3,4), (5,2), (2,3,2); non-Cartesian accuracy bound 3 % (C06 default)", "recon references: dense ridge solution; independent numpy primal-dual run for TV / Haar-l1 (tolerance 2e-3 on the objective)"],
+            "trusted": TLC_BASE + ["harness DFT / NDFT matrices", "independent numpy reference solver"]},
     "C09": {
         "level": "model_checking",
         "engines": [("index_maps", "index_maps", "run")],
@@ -78,6 +82,8 @@ PROPS = {
 HOOK_COMMITS = ["609775d"]
 
 ENGINES = [
+    {"name": "sense", "path": "harness/engines/sense.py + spec/Sense.tla", "serves_properties": ["C16", "C01"],
+     "kind_free_text": "TLC over coil-batching plans; dense factory vs explicit multi-coil encoding; recon apps vs independent references"},
     {"name": "wavelet", "path": "harness/engines/wavelet.py + spec/Wavelet.tla, spec/AccuracyTrace.tla", "serves_properties": ["C10", "C01"],
      "kind_free_text": "TLC: exact coefficient-shape calculus over families x shapes x axes x levels; harness: shape comparison and measured identities validated by TLC"},
     {"name": "nufft", "path": "harness/engines/nufft.py + spec/Nufft.tla, spec/AccuracyTrace.tla", "serves_properties": ["C06", "C04", "C02", "C01"],
@@ -140,7 +146,7 @@ MANIFEST_TEXT = {
 }
 
 NOT_APPLICABLE = {p: "check not built yet in this round (planned, see DESIGN.md section 5)" for p in
-                  ["C16", "C17", "C19"]}
+                  ["C17", "C19"]}
 
 MANIFEST_TEXT["C18"] = {
     "text": "PoissonSearch.tla models the slope bisection on a float lattice with an arbitrary (non-monotone) acceleration function; TLC checks OkIsWithinTol and the liveness property Terminates (the loop without the collapse test is kept as a negative control that must fail). poisson() is run on the real code with _poisson wrapped under a watchdog; every call (probes as slope ranks + integer facts about the mask, RNG state crc, reproducibility memo) is validated by TLC against PoissonTrace.tla.",
@@ -201,3 +207,9 @@ MANIFEST_TEXT["C10"] = {
     "design_ref": "DESIGN.md section 5 C10",
     "note": "model_checking for the shape bookkeeping; the identities with irrational taps are numeric (self-referential, no external reference needed).",
     "technique": "TLA+ exact shape calculus (TLC) + measured identities validated against spec thresholds"}
+
+MANIFEST_TEXT["C16"] = {
+    "text": "Sense.tla models the factory's coil batching (consecutive ranges, short last batch) and TLC checks the partition laws for every coil count / batch size; for every state the harness assembles the explicit encoding matrix (centred orthonormal DFT or exact NDFT, Gaussian-integer maps, square root of weights) and compares it with the dense matrix of the real factory, its adjoint, and every batching. SenseRecon (all solvers, lamda 0 and >0, batched), TotalVariationRecon and L1WaveletRecon (Haar, unitary on the shape) are run on consistent problems: ridge closed form, image reproduction at lamda=0, and an independent numpy primal-dual reference for the l1 objectives.",
+    "design_ref": "DESIGN.md section 5 C16",
+    "note": "Operator clause: model_checking + exact comparison (Cartesian 1e-10; non-Cartesian within the NUFFT accuracy). Recon clause is numeric against independent references.",
+    "technique": "TLA+ batching plan (TLC) + spec-to-code replay against explicit encoding matrices and reference optima"}
